@@ -431,11 +431,12 @@ func (x *Exec) cutLoop(s *State, ord int, label string, spec *LoopSpec, pos toke
 		if pre != nil {
 			pre(b)
 		}
-		out := x.execBlock(b, body.List)
+		savedDepth := x.blockDepth
+		x.blockDepth = 0
+		bouts := x.execBlockM([]*State{b}, body.List)
+		x.blockDepth = savedDepth
 		ends := append([]*State{}, lc.conts...)
-		if out != nil {
-			ends = append(ends, out)
-		}
+		ends = append(ends, bouts...)
 		for _, e := range ends {
 			if e == nil || e.dead {
 				continue
@@ -634,11 +635,12 @@ func (x *Exec) rangeLoop(s *State, n *ast.RangeStmt, ord int, label string, spec
 	b := h.clone()
 	b.assume(Cmp("<", i, length))
 	pre(b)
-	out := x.execBlock(b, n.Body.List)
+	savedDepth := x.blockDepth
+	x.blockDepth = 0
+	bouts := x.execBlockM([]*State{b}, n.Body.List)
+	x.blockDepth = savedDepth
 	ends := append([]*State{}, lc.conts...)
-	if out != nil {
-		ends = append(ends, out)
-	}
+	ends = append(ends, bouts...)
 	for _, e := range ends {
 		if e == nil || e.dead {
 			continue
